@@ -109,60 +109,37 @@ func (c *Check) capabilityCodec(rule string) {
 	if fn := p.Fn("Capability.encode"); fn != nil {
 		a := NewAnalysis(p, fn)
 		a.Run()
-		cv := paramExpr(fn, 0)
 		for _, r := range a.Returns {
 			st := r.State
 			res := r.Results[0]
 			var probs []string
-			val := mkField(cv, "Value", 1, nil)
-			if res.Op != "makeslice" {
-				probs = append(probs, "result must be a fresh buffer")
+			lay, lerr := st.layoutOf(res, 0)
+			if lerr != "" {
+				probs = append(probs, "construction not understood: "+lerr)
 			} else {
-				d := st.linOf(res.Args[0]).add(st.linOf(mkLen(val)), -1)
-				if k, isC := d.isConst(); !isC || k != 2 {
-					probs = append(probs, "buffer length must be 2+len(Value)")
-				}
-				b0, b1 := false, false
-				for k, v := range st.mem {
-					me := st.memE[k]
-					if me == nil || me.Op != "ia" || !strings.Contains(me.Key, res.Args[1].Key) {
-						continue
+				isLenOfValue := func(v *Expr) bool {
+					x := v
+					for x != nil && x.Op == "conv" {
+						x = x.Args[0]
 					}
-					if i, isC := me.Args[1].IsConst(); isC {
-						if i == 0 && isFieldRead(v, "Code") {
-							b0 = true
-						}
-						if i == 1 {
-							x := v
-							if x.Op == "conv" {
-								x = x.Args[0]
-							}
-							if x.Op == "len" && isFieldRead(x.Args[0], "Value") {
-								b1 = true
-							}
-						}
+					return x != nil && x.Op == "len" && isFieldRead(x.Args[0], "Value")
+				}
+				pats := []segPat{
+					{Kind: "byte", Pred: func(v *Expr) bool { return isFieldRead(v, "Code") }, What: "byte(Code)"},
+					{Kind: "byte", Pred: isLenOfValue, What: "byte(len(Value))"},
+					{Kind: "bytes", Pred: func(v *Expr) bool { return isFieldRead(v, "Value") }, What: "all of Value"},
+				}
+				if ok, d := matchLayout(lay, pats); !ok {
+					// an empty Value has no bytes segment
+					if ok2, _ := matchLayout(lay, pats[:2]); !(ok2 && func() bool {
+						v, isC := st.rangeOf(mkLen(mkField(paramExpr(fn, 0), "Value", 1, nil))).IsConst()
+						return isC && v == 0
+					}()) {
+						probs = append(probs, "layout must be Code, len(Value), Value: "+d)
 					}
-				}
-				if !b0 || !b1 {
-					probs = append(probs, "octet 0 = Code, octet 1 = uint8(len(Value))")
-				}
-				if !st.must["call:builtin:copy"] {
-					probs = append(probs, "Value must be copied after the two header octets")
 				}
 			}
 			c.require(len(probs) == 0, rule, "Capability.encode", "layout", p.InstrPos(r.Instr), strings.Join(probs, "; "))
-		}
-		for _, cl := range p.callsIn(fn, descIs("builtin:copy")) {
-			for _, st := range a.At[cl.(ssa.Instruction)] {
-				args := a.argExprs(st, nil, cl.Common())
-				_, lo, hi := sliceParts(args[0])
-				ok := lo != nil && hi == nil && isFieldRead(args[1], "Value")
-				if ok {
-					k, isC := lo.IsConst()
-					ok = isC && k == 2
-				}
-				c.require(ok, rule, "Capability.encode", "copy(b[2:], Value)", p.InstrPos(cl.(ssa.Instruction)), "the value follows the header at offset 2")
-			}
 		}
 	}
 	// capabilityOptionalParam.encode: [2][uint8(len(caps))] ++ caps ; empty => error
@@ -193,20 +170,26 @@ func (c *Check) capabilityCodec(rule string) {
 				if buf.IsNil() {
 					continue // a bound check failed
 				}
-				// append(append1(append1(empty, 2), uint8(len(caps))), caps)
-				good := buf.Op == "append" && buf.Args[0].Op == "append1" && buf.Args[0].Args[0].Op == "append1"
-				if good {
-					caps := buf.Args[1]
-					lenOct := buf.Args[0].Args[1]
-					typ := buf.Args[0].Args[0].Args[1]
-					x := lenOct
-					if x.Op == "conv" {
-						x = x.Args[0]
-					}
-					d := st.linOf(x).add(st.linOf(mkLen(caps)), -1)
-					k, isC := d.isConst()
-					tv, isT := typ.IsConst()
-					good = isC && k == 0 && isT && tv == p.MustConst("capabilityOptionalParamType")
+				// wire order: type 2, len(caps), caps
+				good := false
+				if lay, lerr := st.layoutOf(buf, 0); lerr == "" && len(lay) == 3 && lay[2].Kind == "bytes" {
+					caps := lay[2].Val
+					good, _ = matchLayout(lay, []segPat{
+						{Kind: "byte", Pred: func(v *Expr) bool {
+							tv, isT := st.rangeOf(v).IsConst()
+							return isT && tv == p.MustConst("capabilityOptionalParamType")
+						}, What: "byte(2)"},
+						{Kind: "byte", Pred: func(v *Expr) bool {
+							x := v
+							for x != nil && x.Op == "conv" {
+								x = x.Args[0]
+							}
+							d := st.linOf(x).add(st.linOf(mkLen(caps)), -1)
+							k, isC := d.isConst()
+							return isC && k == 0
+						}, What: "byte(len(caps))"},
+						{Kind: "bytes", What: "the concatenated capabilities"},
+					})
 				}
 				if !good {
 					ok, detail = false, "layout must be [type 2][len(caps)] ++ caps; got "+trunc(buf.Key, 100)
@@ -331,36 +314,27 @@ func (c *Check) addPathTuple(rule string) {
 			a.AtomHook = hooks(rangeHook(func(e *Expr) bool { return isFieldRead(e, "Tx") }, isConst(w.tx)), rangeHook(func(e *Expr) bool { return isFieldRead(e, "Rx") }, isConst(w.rx)))
 			a.Run()
 			ok := len(a.Returns) > 0
+			detail := ""
 			for _, r := range a.Returns {
 				st := r.State
-				root, _, _ := sliceParts(r.Results[0])
-				good := root.Op == "arr" && root.C == 4
-				var b2, b3, afi bool
-				for k, v := range st.mem {
-					me := st.memE[k]
-					if me == nil || me.Args[0].Key != root.Key {
-						continue
-					}
-					if me.Op == "ia" {
-						if i, isC := me.Args[1].IsConst(); isC {
-							if i == 2 && isFieldRead(v, "SAFI") {
-								b2 = true
-							}
-							if cv, isV := v.IsConst(); i == 3 && isV && cv == w.v {
-								b3 = true
-							}
-						}
-					}
-					if me.Op == "bea" && me.S == "be16" && isFieldRead(v, "AFI") {
-						if i, isC := me.Args[1].IsConst(); isC && i == 0 {
-							afi = true
-						}
-					}
+				lay, lerr := st.layoutOf(r.Results[0], 0)
+				if lerr != "" {
+					ok, detail = false, lerr
+					continue
 				}
-				if !(good && b2 && b3 && afi) {
-					ok = false
+				want := w.v
+				if good, d := matchLayout(lay, []segPat{
+					{Kind: "be16", Pred: func(v *Expr) bool { return isFieldRead(v, "AFI") }, What: "be16(AFI)"},
+					{Kind: "byte", Pred: func(v *Expr) bool { return isFieldRead(v, "SAFI") }, What: "byte(SAFI)"},
+					{Kind: "byte", Pred: func(v *Expr) bool {
+						cv, isC := st.rangeOf(v).IsConst()
+						return isC && cv == want
+					}, What: fmt.Sprintf("byte(%d)", want)},
+				}); !good {
+					ok, detail = false, d
 				}
 			}
+			_ = detail
 			c.require(ok, rule, "AddPathTuple.Encode", fmt.Sprintf("Tx=%d Rx=%d => %d", w.tx, w.rx, w.v), p.Pos(enc.Pos()), "inverse of Decode: [AFI be16][SAFI][send/receive]")
 		}
 	}
@@ -438,33 +412,17 @@ func (c *Check) capabilityHelpers(rule string) {
 				code := mkField(e, "Code", 0, nil)
 				val := mkField(e, "Value", 1, nil)
 				cv, isC := code.IsConst()
-				root, _, _ := sliceParts(val)
-				ok = isC && cv == p.MustConst("CAP_MP_EXTENSIONS") && root.Op == "arr" && root.C == 4
-				var afi, safi, res bool
-				res = true
-				for k, v := range st.mem {
-					me := st.memE[k]
-					if me == nil || len(me.Args) == 0 || me.Args[0].Key != root.Key {
-						continue
-					}
-					if me.Op == "bea" && me.S == "be16" && isParamNamed(v, paramName(fn, 0)) {
-						if i, isI := me.Args[1].IsConst(); isI && i == 0 {
-							afi = true
-						}
-					}
-					if me.Op == "ia" {
-						i, _ := me.Args[1].IsConst()
-						if i == 3 && isParamNamed(v, paramName(fn, 1)) {
-							safi = true
-						}
-						if i == 2 {
-							if z, isZ := v.IsConst(); !isZ || z != 0 {
-								res = false
-							}
-						}
-					}
+				ok = isC && cv == p.MustConst("CAP_MP_EXTENSIONS")
+				lay, lerr := st.layoutOf(val, 0)
+				if ok && lerr == "" {
+					ok, _ = matchLayout(lay, []segPat{
+						{Kind: "be16", Pred: func(v *Expr) bool { return isParamNamed(v, paramName(fn, 0)) }, What: "be16(afi)"},
+						{Kind: "byte", Pred: func(v *Expr) bool { z, isZ := st.rangeOf(v).IsConst(); return isZ && z == 0 }, What: "byte(0)"},
+						{Kind: "byte", Pred: func(v *Expr) bool { return isParamNamed(v, paramName(fn, 1)) }, What: "byte(safi)"},
+					})
+				} else {
+					ok = false
 				}
-				ok = ok && afi && safi && res
 			}
 			c.require(ok, rule, "NewMPExtensionsCapability", "layout", p.InstrPos(r.Instr), "Capability{Code: 1, Value: AFI(2) reserved(1)=0 SAFI(1)}")
 		}
@@ -515,8 +473,42 @@ func (c *Check) oneParamPerWireParam(rule string) {
 	for _, ap := range apps {
 		isApp[ap] = true
 		okLoop := inLoop(ap.Block())
-		// the appended element is a MakeInterface of an Alloc made in the loop
+		// the appended element is a MakeInterface of an Alloc made in the loop,
+		// directly or as the result of a helper called in the loop
 		fresh := false
+		var freshVal func(v ssa.Value, depth int) bool
+		freshVal = func(v ssa.Value, depth int) bool {
+			switch x := v.(type) {
+			case *ssa.MakeInterface:
+				al, ok := x.X.(*ssa.Alloc)
+				return ok && inLoop(al.Block())
+			case *ssa.Extract:
+				return freshVal(x.Tuple, depth)
+			case *ssa.Call:
+				h := p.helperCallee(x)
+				if h == nil || depth > 2 || !inLoop(x.Block()) {
+					return false
+				}
+				// every return of the helper that hands back a value hands back
+				// an object allocated by that call
+				okAll, any := true, false
+				ownInstrs(h, func(in ssa.Instruction) {
+					rt, isR := in.(*ssa.Return)
+					if !isR || len(rt.Results) == 0 {
+						return
+					}
+					if cst, isC := rt.Results[0].(*ssa.Const); isC && cst.Value == nil {
+						return // nil result (error return)
+					}
+					any = true
+					if !freshVal(rt.Results[0], depth+1) {
+						okAll = false
+					}
+				})
+				return any && okAll
+			}
+			return false
+		}
 		if len(ap.Call.Args) == 2 {
 			if sl, ok := ap.Call.Args[1].(*ssa.Slice); ok {
 				if arr, ok := sl.X.(*ssa.Alloc); ok {
@@ -526,12 +518,8 @@ func (c *Check) oneParamPerWireParam(rule string) {
 							continue
 						}
 						for _, rr := range *ia.Referrers() {
-							if st, ok := rr.(*ssa.Store); ok {
-								if mi, ok := st.Val.(*ssa.MakeInterface); ok {
-									if al, ok := mi.X.(*ssa.Alloc); ok && inLoop(al.Block()) {
-										fresh = true
-									}
-								}
+							if st, ok := rr.(*ssa.Store); ok && freshVal(st.Val, 0) {
+								fresh = true
 							}
 						}
 					}
@@ -579,7 +567,7 @@ func (c *Check) oneParamPerWireParam(rule string) {
 	n := 0
 	allInstrs(fn, func(in ssa.Instruction) {
 		r, ok := in.(*ssa.Return)
-		if !ok || len(r.Results) != 2 {
+		if !ok || len(r.Results) != 2 || in.Parent() != fn {
 			return
 		}
 		if cst, isC := r.Results[1].(*ssa.Const); !isC || cst.Value != nil {
